@@ -826,7 +826,7 @@ func main() {
 	b := &builder{r: gen.New()}
 	n := 160
 	if thorough {
-		n = 2500
+		n = 12000
 	}
 	if s := os.Getenv("VERIF_WRITER_N"); s != "" {
 		n, _ = strconv.Atoi(s)
